@@ -311,7 +311,9 @@ func (g *G) step(name string, fnames, fparams []string, prev []string) *Y {
 		s.M = append(s.M, E("depends", d))
 	}
 	opt(6, "continueOn", func() *Y { return Map(E("failure", Bool(g.r.Bool())), E("skipped", Bool(g.r.Bool()))) })
-	opt(6, "retryPolicy", func() *Y { return Map(E("limit", Int(int64(g.r.Below(4)))), E("intervalSec", Int(int64(g.r.Below(10))))) })
+	opt(6, "retryPolicy", func() *Y {
+		return Map(E("limit", Int(int64(g.r.Below(4)))), E("intervalSec", Int(int64(g.r.Below(10)))))
+	})
 	opt(6, "repeatPolicy", func() *Y { return Map(E("repeat", Bool(g.r.Bool())), E("intervalSec", Int(int64(g.r.Below(10))))) })
 	opt(8, "mailOnError", func() *Y { return Bool(g.r.Bool()) })
 	opt(4, "preconditions", g.conds)
@@ -341,7 +343,9 @@ func (g *G) validDef() *Y {
 	opt(4, "group", g.text)
 	opt(4, "description", g.text)
 	opt(2, "schedule", g.schedule)
-	opt(5, "logDir", func() *Y { return Str(g.pick([]string{"/tmp/logs", "$VQ_BASE/logs", "${VQ_UNSET}", "`echo /tmp/l`", ""})) })
+	opt(5, "logDir", func() *Y {
+		return Str(g.pick([]string{"/tmp/logs", "$VQ_BASE/logs", "${VQ_UNSET}", "`echo /tmp/l`", ""}))
+	})
 	opt(2, "env", g.env)
 	opt(2, "params", func() *Y {
 		return Str(g.pick([]string{"a b", "X=1 Y=2", "\"q r\" s", "P=`echo p`", "`echo q`", "", "x=\"a b\" y", "$VQ_A", "N=\"`echo n`\"", "a= b", "\"a=b\"", "=x"}))
